@@ -917,13 +917,14 @@ def random_histories(ctx, sb, n):
         if lang == "py":
             paths = [1, 5]
         steps = []
+        palette = rng.sample(modes, 3) if rng.random() < 0.5 else modes[:3]
         for _ in range(rng.randint(3, 9)):
             x = rng.random()
             if x < 0.62 or not steps:
                 omit = rng.random() < 0.3
                 gs = rng.choice(["asneeded", "asneeded", "never", "only"] if omit else ["asneeded", "asneeded", "never", "only", "always"])
                 vs = [0, 0, 1, 2, 3, 5, 6] + ([4] if via == "inproc" or True else [])
-                steps.append(R(fm=rng.choice(modes[:3] if rng.random() < 0.5 else modes), no=rng.random() < 0.3, omit=omit, gs=gs,
+                steps.append(R(fm=rng.choice(palette), no=rng.random() < 0.3, omit=omit, gs=gs,
                                v=rng.choice(vs), style=rng.randint(0, 3)))
             elif x < 0.8:
                 steps.append(F(rng.choice(paths), rng.choice(["long", "short", "mid", "empty"]), rng.choice(modes)))
@@ -966,8 +967,13 @@ def model_checks(ctx):
 
 
 def run(ctx):
+    phases = ctx.cov["phases_wall_s"] = {}
+    t = time.time()
     model_checks(ctx)
+    phases["model checking"] = round(time.time() - t, 1)
+    t = time.time()
     sb = Sandbox(ctx)
+    phases["sandbox, warm-up, privilege probe"] = round(time.time() - t, 1)
     camp = Campaign(ctx, sb)
     if not sb.unpriv:
         ctx.not_exercised("read-only clauses (chmod u+w gate before open): privileges could not be dropped, every run was made as root")
@@ -985,7 +991,7 @@ def run(ctx):
     if scale < 1:
         hist = hist[::int(1 / scale)]
     sim_cfg = ctx.pick("GenHistory_sim", "GenHistory_sim6")
-    nsim = int(ctx.pick(300, 2500) * scale)
+    nsim = int(ctx.pick(300, 2000) * scale)
     # TLC counts only behaviours that reach -depth; ours end (deadlock) after MaxSteps steps, ~40 of them per counted one
     sims = tlc.emit_cases(ctx, "GenHistory", sim_cfg, name=sim_cfg + " (-simulate)", constants="all options, environment actions, 5 paths",
                           simulate="num=%d" % max(2, nsim // 20), depth=400, seed=ctx.seed + 1, timeout=1500)
@@ -1008,7 +1014,9 @@ def run(ctx):
                     steps += [R(omit=om, gs="never", v=v)]
                 steps += [R(gs="only", v=v)]
             helper.append({"lang": lang, "ns": "small", "copy": copy, "via": "inproc", "steps": steps})
+    t = time.time()
     camp.need_fresh(helper + stims)
+    phases["fresh references (model histories)"] = round(time.time() - t, 1)
     for s in stims:
         attach_expectation(camp, s)
     t0 = time.time()
@@ -1022,12 +1030,14 @@ def run(ctx):
     ctx.sample({"direction": "spec->code", "lang": ex["lang"], "steps": ex["steps"], "expected_after_each_run": ex["exp"]})
 
     # ---- code -> spec: scripted + random histories
-    more = scripted() + random_histories(ctx, sb, int(ctx.pick(100, 1500) * scale))
+    more = scripted() + random_histories(ctx, sb, int(ctx.pick(100, 1000) * scale))
     camp.need_fresh([{"lang": l, "ns": n, "copy": c, "via": "inproc", "steps": []} for l in ("c", "cpp", "py") for n in ("small", "big")
                      for c in (False, True) if not (l == "py" and (c or not sb.py_ok))])
     prune_unknown_paths(camp, more)
     n0 = camp.nrun
+    t = time.time()
     camp.run(more, "scripted/random")
+    phases["scripted/random histories incl. references"] = round(time.time() - t, 1)
     for s in more:
         ctx.count(len(s["steps"]))
         ctx.distinct("r|" + sha(json.dumps(s["steps"], sort_keys=True))[:12] + s["lang"] + s["ns"])
@@ -1062,7 +1072,10 @@ def run(ctx):
     if not sb.py_ok:
         ctx.not_exercised("py target (generation failed in warm-up)")
 
+    t = time.time()
     selftests(ctx, camp)
+    phases["binding self-tests"] = round(time.time() - t, 1)
+    phases["fresh reference runs"] = 2 * len(camp.fresh)
 
     ctx.cov["rule"] = ("one evaluation = one step (nnvg run or environment action) of a history in one output directory, snapshot after each; "
                        "spec->code: all 2-run%s histories over an option subset (16; thorough 56 resp. 16 options) + %d simulated %d-step behaviours of GenHistory.tla (all options, "
